@@ -1,16 +1,1 @@
-// Helpers for harnesses that need a ChangeGraph in which some hashes count as applied
-// (child module of automerge::change_graph).
-use super::*;
-
-/// ChangeGraph::new(0) with the given hashes registered as applied nodes. Only `has_change` is
-/// meaningful on the result (what ChangeQueue::pop_topo_sorted_ready reads).
-#[allow(dead_code)]
-pub(crate) fn graph_with_applied(applied: &[ChangeHash]) -> ChangeGraph {
-    let mut g = ChangeGraph::new(0);
-    let mut i = 0;
-    while i < applied.len() {
-        g.nodes_by_hash.insert(applied[i], NodeIdx(i as u32));
-        i += 1;
-    }
-    g
-}
+// harnesses for automerge/src/change_graph.rs (G-HEADS: BTreeSet<ChangeHash> insert/collect/== over 2-3 hashes did not finish in 900 s; not built)
